@@ -15,19 +15,6 @@ open Gzx Gzx.QRDec Gzx.QRPack Gzx.ECI
 
 /-! ## character-count widths: the three version classes 1-9 | 10-26 | 27-40 -/
 
-theorem countBits_numeric (ver : Nat) : countBits .numeric ver = .ok (countWidth 0 ver) := by
-  by_cases h9 : ver ≤ 9 <;> by_cases h26 : ver ≤ 26 <;> simp [countBits, countWidth, Mode.countTable, h9, h26]
-theorem countBits_alnum (ver : Nat) : countBits .alphanumeric ver = .ok (countWidth 1 ver) := by
-  by_cases h9 : ver ≤ 9 <;> by_cases h26 : ver ≤ 26 <;> simp [countBits, countWidth, Mode.countTable, h9, h26]
-theorem countBits_byte (ver : Nat) : countBits .byte ver = .ok (countWidth 2 ver) := by
-  by_cases h9 : ver ≤ 9 <;> by_cases h26 : ver ≤ 26 <;> simp [countBits, countWidth, Mode.countTable, h9, h26]
-theorem countBits_kanji (ver : Nat) : countBits .kanji ver = .ok (countWidth 3 ver) := by
-  by_cases h9 : ver ≤ 9 <;> by_cases h26 : ver ≤ 26 <;> simp [countBits, countWidth, Mode.countTable, h9, h26]
-
-theorem countWidth_range (m ver : Nat) : 1 ≤ countWidth m ver ∧ countWidth m ver ≤ 32 := by
-  by_cases h9 : ver ≤ 9 <;> by_cases h26 : ver ≤ 26 <;>
-    (unfold countWidth; simp only [h9, h26, if_true, if_false]; split <;> omega)
-
 /-- the widths at the class boundaries 9|10 and 26|27 -/
 example : (countWidth 0 9, countWidth 0 10, countWidth 0 26, countWidth 0 27) = (10, 12, 12, 14) := by decide
 example : (countWidth 2 9, countWidth 2 10, countWidth 3 26, countWidth 3 27) = (8, 16, 10, 12) := by decide
@@ -80,20 +67,8 @@ theorem bits_byte_inv_eci (reg : Registry) (ver : Nat) (hint : Hint) (fuel : Nat
     (bs : List Nat) (hb : ∀ b ∈ bs, b < 256) (hlen : bs.length < 2 ^ countWidth 2 ver) (rest : List Bool) :
     parseLoop reg ver hint (fuel + 1) st (segment 4 (countWidth 2 ver) bs.length (packBytes bs) ++ rest) =
       parseLoop reg ver hint fuel
-        { st with segs := st.segs ++ [.text (.named e.name) bs], byteSegs := st.byteSegs ++ [bs] } rest := by
-  conv => lhs; unfold parseLoop
-  have ⟨c1, c32⟩ := countWidth_range 2 ver
-  simp only [segment, List.append_assoc]
-  have hl : ¬ (natToBits 4 4 ++ (natToBits (countWidth 2 ver) bs.length ++ (packBytes bs ++ rest))).length < 4 := by
-    simp only [List.length_append, natToBits_length]; omega
-  simp only [hl, if_false]
-  rw [readBitsF_natToBits_lt 4 4 _ (by omega) (by omega) (by decide)]
-  simp only [bind, Except.bind, modeForBits, wrapF, countBits_byte]
-  rw [readBitsF_natToBits_lt _ _ _ c1 c32 hlen]
-  have hfit : ¬ 8 * bs.length > (List.flatMap (natToBits 8) bs ++ rest).length := by
-    simp only [List.length_append, flatMap_natToBits_length]; omega
-  simp only [decodeByte, packBytes, hfit, if_false, bind, Except.bind,
-    readGroups_pack 8 (by omega) (by omega) bs hb rest [], List.nil_append, he]
+        { st with segs := st.segs ++ [.text (.named e.name) bs], byteSegs := st.byteSegs ++ [bs] } rest :=
+  parseLoop_byte_eci reg ver hint fuel st e he bs hb hlen rest
 
 /-- … and otherwise the hinted or guessed charset (`guessCharset`; for UTF-8 payloads see `C15.guess_utf8`) -/
 theorem bits_byte_inv_guess (reg : Registry) (ver : Nat) (hint : Hint) (fuel : Nat) (st : PSt)
@@ -198,15 +173,6 @@ theorem version_info_inv (T : Tables) (hT : MinDist 8 T.vdi) (p : Parser) (hc : 
   exact readVersion_reads_first T p hc hbig w hlt c₁ v h
 
 /-! ## whole bit streams: one segment, terminator, padding -/
-
-/-- a payload followed by the full terminator and arbitrary padding, or by a shortened terminator -/
-def Terminated (tail : List Bool) : Prop := (∃ pad, tail = List.replicate 4 false ++ pad) ∨ tail.length < 4
-
-theorem parseLoop_terminated (reg : Registry) (ver : Nat) (hint : Hint) (fuel : Nat) (st : PSt)
-    (tail : List Bool) (ht : Terminated tail) : parseLoop reg ver hint (fuel + 1) st tail = .ok st := by
-  rcases ht with ⟨pad, rfl⟩ | h
-  · exact (terminate_parse reg ver hint fuel st).1 pad
-  · exact (terminate_parse reg ver hint fuel st).2 tail h
 
 /-- numeric symbol contents: the data codewords' bit string `segment ++ terminator ++ padding` parses
     to exactly the digits (one raw ASCII segment, no byte segments, symbology modifier 1) -/
